@@ -19,6 +19,7 @@ Flow level (children of one composite are numbers, an emitting channel is 4*node
   sdisc <sig> <node> <0|1>
   starters <i> …
   mconfig <P|R> <ui node> …                     the composite is a macro: its constructor's treatment of a hand-made wiring
+  pre <sig> <node>                              child's all-of trigger heard this emitter before the run (stale memory)
   quiet <i>                                     the wrapped function of child i is not instrumented: leave it out of `calls`
   run <fuel>                                    prints the observations of one composite run
 -/
@@ -38,11 +39,13 @@ structure St where
   w : Wiring
   starters : List Nat
   quiet : List Nat
+  rec0 : Nat → List Label
 
 def init : St :=
   { lab := id, acc := { conns := [], received := [] }, anyc := [],
     n := 0, kinds := fun _ => .term 0, cache := fun _ => false, failAt := fun _ => [],
-    slots := fun _ => [], w := Wiring.empty, starters := [], quiet := [] }
+    slots := fun _ => [], w := Wiring.empty, starters := [], quiet := [],
+    rec0 := fun _ => [] }
 
 def insertSorted (x : Nat) : List Nat → List Nat
   | [] => [x]
@@ -106,7 +109,7 @@ def modifyNth {α} (l : List α) (k : Nat) (f : α → α) : List α :=
 def runObs (s : St) (fuel : Nat) : List String :=
   let f := s.fin
   let g := f.toGraph
-  let r := compositeRun (nodeSem s.nodes) g fuel (S.init Store.init (fun _ => []))
+  let r := compositeRun (nodeSem s.nodes) g fuel (S.init Store.init s.rec0)
   let st := r.store
   let ids := List.range s.n
   [ s!"wf {b2n f.check}",
@@ -229,6 +232,13 @@ def step (s : St) (ws : List String) : St × List String :=
       if ui.all (· < s.n) && !s.starters.isEmpty then
         let w1 := s.w.reconfigure pinned (List.range s.n)
         ({ s with w := w1.putUiFirst ui s.starters, starters := uiStarters ui s.starters }, [])
+      else (s, ["bad-op"])
+    | _, _ => (s, ["bad-op"])
+  | ["pre", sg, r] =>
+    -- before the run somebody called child r's all-of trigger with this emitter (without completing the round)
+    match sg.toNat?, r.toNat? with
+    | some sg, some r =>
+      if sg < 4 * s.n && r < s.n then ({ s with rec0 := updF s.rec0 r (insertL sg (s.rec0 r)) }, [])
       else (s, ["bad-op"])
     | _, _ => (s, ["bad-op"])
   | ["quiet", i] =>
